@@ -95,6 +95,7 @@ func fullDecls(S *Sorts, prelude string, ifaceFns map[string]types.Type) string 
 			fmt.Fprintf(&b, "(assert (and (= (%s.card (select F.%s 0)) 0) (= (%s.dom (select F.%s 0)) empty<%s>)))\n", n, n, n, n, kt)
 		}
 	}
+	b.WriteString(S.nonFreshDecls())
 	var zs []string
 	for z := range S.zarrs {
 		zs = append(zs, z)
